@@ -100,7 +100,13 @@ def descriptions():
                 for d, s in enumerate(sizes):
                     ds[f'd{d}'] = {
                         (f'x{e}' if overlap and d < 2 else f'd{d}e{e}'):
-                            {'v': d * 10 + e, 'nested': {'l': [d, e]}}
+                            # (stored examples that already carry an
+                            # 'example_id' / 'dataset' field - e.g. exported
+                            # from another database - get the id and the
+                            # name they are requested under)
+                            {'v': d * 10 + e, 'nested': {'l': [d, e]},
+                             **({'dataset': 'exported-from-elsewhere'} if e == 1 else {}),
+                             **({'example_id': f'old-id-{e}'} if d == 1 else {})}
                         for e in range(s)}
                 alias_sets = [()]
                 names = list(ds)
